@@ -66,7 +66,8 @@ def c19 (args res : List String) : Verdict :=
       let slots := Rdest.Gen.MAX_UNCHOKED + Rdest.Gen.MAX_OPTIMISTIC
       let (mContacted, mFree, _) := runRetry false Rdest.Gen.CHANNEL_SIZE (9 * k + 7) (Retry.init k) true 0
       let get (key : String) : String := (res.filterMap fun t => if t.startsWith (key ++ "=") then some ((t.drop (key.length + 1)).toString) else none).headD "?"
-      if !(mContacted && mFree) then vDiff "retry-model" "model-run-does-not-end-contacted" tag
+      if res.head? = some "spawn-failed" ∨ res.head? = some "child-failed" then vBad ("e2e harness could not run: " ++ joinToks res)
+      else if !(mContacted && mFree) then vDiff "retry-model" "model-run-does-not-end-contacted" tag
       else if get "good" ≠ "1" then vProp "T4-good-announce-never-answered" tag
       else if get "requests" ≠ toString (k + 1) then vDiff "requests" (toString (k + 1)) tag
       else if get "responsive" = "n" then vProp "T4-manager-does-not-serve-connections-while-announces-fail" tag
